@@ -575,6 +575,68 @@ func c09History(order []int, toggle string, closeIdx int, pkts []c09Pkt) (*c09Fa
 	return nil, probes, true
 }
 
+// c09Shadow: a connected socket is more specific than any listener, also when the listener is
+// opened later on the very port the connection uses. variant 0: no listener, 1: listener on
+// *:port, 2: listener on A1:port.
+func c09Shadow(variant int) *c09Fail {
+	c := c09NewWorld()
+	defer c.close()
+	name := []string{"connection alone", "listener *:port opened after the connection", "listener A1:port opened after the connection"}[variant]
+	sk := c.r.n.NewSock(tcp.ProtocolNumber, ipv4.ProtocolNumber)
+	defer sk.EP.Close()
+	if err := sk.EP.Connect(tcpip.FullAddress{Addr: c09R, Port: c09Q}); err != tcpip.ErrConnectStarted {
+		return &c09Fail{"harness", fmt.Sprintf("connect: %v", err)}
+	}
+	c.r.w.Settle()
+	var port uint16
+	var iss uint32
+	for _, d := range c.r.Collect() {
+		if d.TCP != nil && d.TCP.Flags == ref.SYN {
+			port, iss = d.TCP.SrcPort, d.TCP.Seq
+		}
+	}
+	if port == 0 {
+		return &c09Fail{"harness", "no SYN emitted"}
+	}
+	const piss = 52000
+	inject := func(flags uint8, seq, ack uint32, payload []byte) []*Decoded {
+		seg := ref.BuildTCP(c09Q, port, seq, ack, flags, 30000, nil, payload, []byte(c09R), []byte(c09A1))
+		c.r.w.Inject(c.r.n, 1, ipv4.ProtocolNumber, ref.BuildIPv4([]byte(c09R), []byte(c09A1), ref.ProtoTCP, 5, 0, 0, 64, seg), "", "")
+		return c.r.Collect()
+	}
+	inject(ref.SYN|ref.ACK, piss, iss+1, nil)
+	if st := tcp.VerifDump(sk.EP); st.State != 4 {
+		return &c09Fail{"harness", fmt.Sprintf("active open did not complete (state %d)", st.State)}
+	}
+	if variant > 0 {
+		l := c.r.n.NewSock(tcp.ProtocolNumber, ipv4.ProtocolNumber)
+		defer l.EP.Close()
+		addr := tcpip.Address("")
+		if variant == 2 {
+			addr = c09A1
+		}
+		if err := l.EP.Bind(tcpip.FullAddress{Addr: addr, Port: port}, nil); err != nil {
+			return nil // the stack refuses the bind: nothing can be shadowed
+		}
+		if err := l.EP.Listen(4); err != nil {
+			return nil
+		}
+		c.r.w.Settle()
+	}
+	frames := inject(ref.ACK|ref.PSH, piss+1, iss+1, []byte("for-the-connection"))
+	rsts := 0
+	for _, d := range frames {
+		if d.TCP != nil && d.TCP.Flags&ref.RST != 0 {
+			rsts++
+		}
+	}
+	v, _, err := sk.EP.Read(nil)
+	if err != nil || string(v) != "for-the-connection" {
+		return &c09Fail{"connection-shadowed", fmt.Sprintf("%s (local port %d): in-sequence data for the established connection A1:%d<-R:%d was not delivered to it (Read: %q, %v); %d reset(s) were emitted instead", name, port, port, c09Q, v, err, rsts)}
+	}
+	return nil
+}
+
 func c09Orders() [][]int {
 	var out [][]int
 	n := len(c09Menu)
@@ -759,6 +821,7 @@ func c09Jobs(tier string) []string {
 	for name := range c09Progs {
 		jobs = append(jobs, "coop:"+name)
 	}
+	jobs = append(jobs, "shadow")
 	return jobs
 }
 
@@ -771,6 +834,19 @@ func c09Run(job, tier string, deadline time.Time) *engine.Result {
 		}
 		r.Outcomes = append(r.Outcomes, engine.Hash(job, len(r.Violations)))
 	}()
+	if job == "shadow" {
+		for v := 0; v < 3; v++ {
+			f := c09Shadow(v)
+			r.Execs++
+			r.Transitions += 5
+			r.Nontrivial++
+			if f != nil {
+				r.Violations = append(r.Violations, engine.Violation{Property: "C09", Kind: "demux", Key: f.key, Detail: f.msg, Job: job, Replay: engine.MustJSON(map[string]interface{}{"shadow": v + 1})})
+			}
+		}
+		r.Sample(map[string]interface{}{"shadow": "an actively opened connection on an ephemeral port, then {nothing, listener *:that port, listener A1:that port}; in-sequence data for the connection must reach the connection"})
+		return r
+	}
 	if strings.HasPrefix(job, "coop:") {
 		st := engine.Explore(job, c09Harness(c09Progs[job[5:]]), engine.CoopCfg{Bound: 2, Deadline: deadline})
 		st.Into(r)
@@ -883,6 +959,15 @@ func c09Replay(rp json.RawMessage) *engine.Violation {
 	var cr engine.CoopReplay
 	if json.Unmarshal(rp, &cr) == nil && strings.HasPrefix(cr.Job, "coop:") {
 		return engine.ReplayCoop(c09Harness(c09Progs[cr.Job[5:]]), cr.Choices)
+	}
+	var sh struct {
+		Shadow int `json:"shadow"`
+	}
+	if json.Unmarshal(rp, &sh) == nil && sh.Shadow > 0 {
+		if f := c09Shadow(sh.Shadow - 1); f != nil {
+			return &engine.Violation{Property: "C09", Kind: "demux", Key: f.key, Detail: f.msg}
+		}
+		return nil
 	}
 	var p struct {
 		Order  []int
